@@ -1,7 +1,9 @@
 SPECIFICATION Spec
 CONSTANTS
   Dev = {}
-  NSamp = 2
+  NSamp = 3
+  MaxLen = 3
+  WithSnp = TRUE
   EmitReplay = TRUE
-INVARIANTS EntriesAreSites Traversal
+INVARIANTS Traversal
 CHECK_DEADLOCK FALSE
